@@ -190,6 +190,7 @@ type reqObs struct {
 	par               map[string]string
 	body              *string
 	hdrPtr, parPtr    uintptr
+	hdrVals           map[string]uintptr // backing array of every non-empty header value slice
 	bodyVal           io.ReadCloser
 }
 
@@ -302,9 +303,31 @@ func mapPtr(m interface{}) uintptr {
 	return v.Pointer()
 }
 
+func valPtrs(h map[string][]string) map[string]uintptr {
+	m := map[string]uintptr{}
+	for k, vs := range h {
+		if len(vs) > 0 {
+			m[k] = reflect.ValueOf(vs).Pointer()
+		}
+	}
+	return m
+}
+
+// some value slice of a starts in a backing array also used by b
+func sharesValues(a, b map[string]uintptr) bool {
+	for _, p := range a {
+		for _, q := range b {
+			if p == q {
+				return true
+			}
+		}
+	}
+	return false
+}
+
 func observeReq(r *proxy.Request) reqObs {
 	o := reqObs{method: r.Method, path: r.Path, hdr: copyMulti(r.Headers), qry: copyMulti(r.Query), par: copyStr(r.Params),
-		hdrPtr: mapPtr(r.Headers), parPtr: mapPtr(r.Params), bodyVal: r.Body}
+		hdrPtr: mapPtr(r.Headers), parPtr: mapPtr(r.Params), bodyVal: r.Body, hdrVals: valPtrs(r.Headers)}
 	if r.URL != nil {
 		o.url = r.URL.String()
 	}
@@ -420,6 +443,14 @@ func (st *runState) shadowStub(i int) proxy.Proxy {
 		if sout == sGarbage && st.scribble {
 			// a backend that scribbles over the request it was handed (its own copy)
 			if r.Headers != nil {
+				// rewrite the values IN PLACE first (h[k][0] = ...: the backing arrays of the value
+				// slices must be the clone's own), then replace / add entries
+				for _, vs := range r.Headers {
+					if len(vs) > 0 {
+						vs[0] = "scrubbed-in-place"
+						vs[len(vs)-1] = "scrubbed-in-place"
+					}
+				}
 				r.Headers["X-Garbage"] = []string{"shadow"}
 				for k := range r.Headers {
 					r.Headers[k] = append(r.Headers[k], "garbage")
@@ -598,6 +629,7 @@ type runResult struct {
 	st       *runState
 	reqAfter *proxy.Request
 	origHdr  uintptr
+	origVals map[string]uintptr
 	origPar  uintptr
 	origBody io.ReadCloser
 }
@@ -687,6 +719,7 @@ func (inst *instance) call(spec *caseSpec, sequential bool) (res runResult) {
 	}
 	req := mkRequest(spec.req)
 	res.origHdr, res.origPar, res.origBody = mapPtr(req.Headers), mapPtr(req.Params), req.Body
+	res.origVals = valPtrs(req.Headers)
 	ctx, cancel := context.WithCancel(context.WithValue(context.WithValue(context.Background(), clientKey, "client-value"), stateKey, st))
 	if spec.mode == mCancelFirst {
 		cancel()
@@ -920,7 +953,8 @@ func shsCoq(spec *caseSpec, r runResult) (string, []interface{}, string) {
 			continue
 		}
 		o := st.shs[i]
-		privHdr := o.r.hdrPtr == 0 || (o.r.hdrPtr != r.origHdr)
+		// own headers: its own map AND its own value slices
+		privHdr := (o.r.hdrPtr == 0 || (o.r.hdrPtr != r.origHdr)) && !sharesValues(o.r.hdrVals, r.origVals)
 		privPar := o.r.parPtr == 0 || (o.r.parPtr != r.origPar)
 		privBody := true
 		if o.r.bodyVal != nil {
@@ -933,7 +967,7 @@ func shsCoq(spec *caseSpec, r runResult) (string, []interface{}, string) {
 				continue
 			}
 			g := st.regs[j].r
-			if o.r.hdrPtr != 0 && o.r.hdrPtr == g.hdrPtr {
+			if (o.r.hdrPtr != 0 && o.r.hdrPtr == g.hdrPtr) || sharesValues(o.r.hdrVals, g.hdrVals) {
 				privHdr = false
 			}
 			if o.r.parPtr != 0 && o.r.parPtr == g.parPtr {
